@@ -21,7 +21,7 @@ RULE = ("seeded cases of two kinds. 'roundtrip': 40 records drawn alternately fr
         "classes plus JSON/CSV/TSV record classes that extend another record class (base classes used first), slots=True record classes and a record class with a used cached_property; JSON values nested to depth 3 from str (all planes, lone surrogates, control chars, quotes, "
         "backslashes), ints (incl. >2**64), finite floats, bools, None, lists, str-keyed dicts; CSV/TSV fields int, "
         "float, str without '\\n'/'\\r' but with delimiters, quotes, backslashes, blanks, empty, NUL, non-ASCII. "
-        "'file': 0-8 records of one class written one per line, read through RecordFile / MemoryMappedRecordFile "
+        "'file': 0-8 records of one class written one per line (last line with or without terminator), read through RecordFile / MemoryMappedRecordFile "
         "(index, negative index, slices, iterables, iteration), then a mutable record file is edited (set, insert, "
         "append, del, pop, extend), saved and reopened with both variants. distinct_nontrivial = distinct records "
         "round-tripped + distinct file cases.")
@@ -258,7 +258,8 @@ def gen_case(rng, tier, index):
     for _ in range(rng.randint(0, 12)):
         ops.append([rng.choice(["set", "insert", "append", "del", "pop", "extend"]), rng.randrange(1 << 16),
                     gen_record(rng, cname, True)])
-    return {"kind": "file", "cls": cname, "records": recs, "ops": ops, "reads": rng.randrange(1 << 30)}
+    return {"kind": "file", "cls": cname, "records": recs, "ops": ops, "reads": rng.randrange(1 << 30),
+            "final_nl": rng.random() < 0.6}
 
 
 def shrinkable(case):
@@ -344,8 +345,11 @@ def run_file_case(case, res):
     recs = [mk(s) for s in case["records"]]
     lines = [check_roundtrip(s, res) for s in case["records"]]
     with open(path, "w", encoding="utf-8", newline="") as f:
-        for l in lines:
-            f.write(l + "\n")
+        if case.get("final_nl", True):
+            for l in lines:
+                f.write(l + "\n")
+        else:
+            f.write("\n".join(lines))      # the last record is not terminated (a file written with join)
     n = len(recs)
     rr = common.rng_for("c13-reads", case["reads"])
 
@@ -375,6 +379,17 @@ def run_file_case(case, res):
             if g != ("ok", [model[i] for i in sel]):
                 fail("file-read", f"{label}: f[{sel}] -> {_short(g)}")
         res.evaluations += 3
+        if m >= 2 and hasattr(obj, "close"):
+            # a second session on the same object: the first read after reopening is the record after the last one read
+            i = rr.randrange(m - 1)
+            g1 = outcome(lambda: obj[i])
+            obj.close()
+            obj.open()
+            g2 = outcome(lambda: obj[i + 1])
+            if (g1, g2) != (("ok", model[i]), ("ok", model[i + 1])):
+                fail("file-read", f"{label}: f[{i}], close(), open(), f[{i + 1}] -> {_short((g1, g2))}, expected "
+                     f"{_short((model[i], model[i + 1]))}")
+            res.evaluations += 1
 
     variants = ["RecordFile", "MemoryMappedRecordFile", "MutableRecordFile", "MutableMemoryMappedRecordFile"]
     for v in variants:
